@@ -16,7 +16,10 @@
 -- of the panics the REAL code has (`RealPanic`): the AIR constructor / the AIR's callbacks and
 -- `BoundaryConstraints::new` inside `evaluate_constraints` on a trace shape the computation does not fit (recorded
 -- finding c06.verify.air-new: `Air::new` cannot return an error), or the `expect` of lib.rs on
--- `get_aux_rand_elements` (the coin not producing a field element within its 1000 tries).  The full statement
+-- `get_aux_rand_elements` (the coin not producing a field element within its 1000 tries) - the latter EXCLUDED for
+-- the two instantiations over the 64-bit field (`verify_whole_safe_rp64`, `verify_whole_safe_rpjive`: every digest
+-- consists of canonical field elements, `from_random_bytes` never rejects), not for Rp62_248 (rejection sampling of
+-- packed 62-bit words: 1000 consecutive rejections cannot be excluded without a hash assumption).  The full statement
 -- `VerifyNeverPanics` is FALSE for the code as it is: `verifyNeverPanics_false`.
 -- `refVerify` is tied to the real `verify` by the `refv` op lines (verdict kind incl. `panic` compared on identical
 -- bytes): harness/src/bin/c03.rs (honest proofs and all of C03's mutant families) and harness/src/bin/c06.rs (a
@@ -65,16 +68,38 @@ theorem verify_whole_panics_only_where_code_does (J : Inst) (hJ : InstOk J) (d :
     (h : refVerify J d pubs acc bs = .err (.panic s)) : RealPanic s :=
   refVerify_never_panics J hJ d hcols pubs acc bs hb s h
 
-/-- the three instantiations -/
+/-- the panics of the real code on a trace shape the computation does not fit (recorded finding c06.verify.air-new) -/
+def ShapePanic (s : String) : Prop := s = "AIR::new" ∨ s = "evaluate_constraints"
+
+/-- for an instantiation whose coin draws cannot fail (`DrawTotal`) the `expect` on the auxiliary random elements is
+    excluded too: the whole of `Proof::from_bytes` + `verify` returns, or panics on a foreign trace shape -/
+theorem verify_whole_safe_drawTotal (J : Inst) (hJ : InstOk J) (hD : DrawTotal J) (d : Desc)
+    (hcols : ∀ ti o n, Parse.airNew (frontAir J d) ti o = some n → n ≤ 255)
+    (pubs : List Nat) (acc : Acceptable) (bs : List Nat) (hb : BytesOk bs) :
+    Returns (refVerify J d pubs acc bs) ∨ ∃ s, refVerify J d pubs acc bs = .err (.panic s) ∧ ShapePanic s := by
+  cases hv : refVerify J d pubs acc bs with
+  | ok => exact Or.inl trivial
+  | parseErr => exact Or.inl trivial
+  | insufficientSecurity => exact Or.inl trivial
+  | err e =>
+    cases e with
+    | panic s => exact Or.inr ⟨s, rfl, refVerify_never_panics_drawTotal J hJ hD d hcols pubs acc bs hb s hv⟩
+    | _ => exact Or.inl trivial
+
+/-- the three instantiations: over the 64-bit field (Rp64_256, RpJive64_256) `from_random_bytes` accepts the bytes of
+    every digest - four canonical field elements -, so the coin's draws never fail whatever the hash values are and
+    only the shape panics remain; over the 62-bit field (Rp62_248, digests of packed 62-bit words) rejection
+    sampling is real and the `expect` of lib.rs on `get_aux_rand_elements` cannot be excluded without an assumption on
+    the hash values (1000 consecutive rejected candidates) -/
 theorem verify_whole_safe_rp64 (d : Desc) (hcols : ∀ ti o n, Parse.airNew (frontAir Inst.rp64 d) ti o = some n → n ≤ 255)
     (pubs : List Nat) (acc : Acceptable) (bs : List Nat) (hb : BytesOk bs) :
-    Returns (refVerify Inst.rp64 d pubs acc bs) ∨ ∃ s, refVerify Inst.rp64 d pubs acc bs = .err (.panic s) ∧ RealPanic s :=
-  verify_whole_safe_partial _ instOk_rp64 d hcols pubs acc bs hb
+    Returns (refVerify Inst.rp64 d pubs acc bs) ∨ ∃ s, refVerify Inst.rp64 d pubs acc bs = .err (.panic s) ∧ ShapePanic s :=
+  verify_whole_safe_drawTotal _ instOk_rp64 drawTotal_rp64 d hcols pubs acc bs hb
 
 theorem verify_whole_safe_rpjive (d : Desc) (hcols : ∀ ti o n, Parse.airNew (frontAir Inst.rpjive d) ti o = some n → n ≤ 255)
     (pubs : List Nat) (acc : Acceptable) (bs : List Nat) (hb : BytesOk bs) :
-    Returns (refVerify Inst.rpjive d pubs acc bs) ∨ ∃ s, refVerify Inst.rpjive d pubs acc bs = .err (.panic s) ∧ RealPanic s :=
-  verify_whole_safe_partial _ instOk_rpjive d hcols pubs acc bs hb
+    Returns (refVerify Inst.rpjive d pubs acc bs) ∨ ∃ s, refVerify Inst.rpjive d pubs acc bs = .err (.panic s) ∧ ShapePanic s :=
+  verify_whole_safe_drawTotal _ instOk_rpjive drawTotal_rpjive d hcols pubs acc bs hb
 
 theorem verify_whole_safe_rp62 (d : Desc) (hcols : ∀ ti o n, Parse.airNew (frontAir Inst.rp62 d) ti o = some n → n ≤ 255)
     (pubs : List Nat) (acc : Acceptable) (bs : List Nat) (hb : BytesOk bs) :
@@ -88,6 +113,8 @@ example (pubs : List Nat) (acc : Acceptable) (bs : List Nat) (hb : BytesOk bs) :
   verify_whole_safe_rp64 descAux8 (descAux8_cols _) pubs acc bs hb
 example (pubs : List Nat) (acc : Acceptable) (bs : List Nat) (hb : BytesOk bs) :=
   verify_whole_safe_rp62 descAux8 (descAux8_cols _) pubs acc bs hb
+example (pubs : List Nat) (acc : Acceptable) (bs : List Nat) (hb : BytesOk bs) :=
+  verify_whole_safe_rpjive descLag8 (descLag8_cols _) pubs acc bs hb
 example : BytesOk honestAux8 := BytesOk.of_all (by decide +kernel)
 
 /-- both alternatives occur: the honest proof with an auxiliary segment is accepted (a return value) ... -/
